@@ -497,3 +497,7 @@ type cmtapiTree = interface {
 
 // KV returns the view's state as an immutable key-value tree (for typed state wrappers).
 func (v *View) KV() mkvs.ImmutableKeyValueTree { return v.cx.State() }
+
+// Bump records that one more transaction of addr (expected to pass authentication) precedes the
+// ones generated next in the same block.
+func (g *TxGen) Bump(addr staking.Address) { g.nonceAdd[addr]++ }
